@@ -5,7 +5,7 @@ CFG = {
     "lean": "Aqv.Props.C05",
     "exe": "aqmodel_c05",
     "harness": "c05",
-    "gen": ["txparams", "supply"],
+    "gen": ["txparams", "supply", "translated"],
     "timeout": {"quick": 900, "thorough": 3600},
     "trivial_outputs": ["-"],
     "rule": "rw: Aquahash.Finalize on an empty state for heights around the 42,000,000 cut-off (±1, ±few, far) and 0-2 uncles at distance 0-8, "
